@@ -74,8 +74,8 @@ CLAIMED = {
         text="spec/Batch.tla defines what the callback log must be (one callback per element of the Cartesian product of the "
              "value lists as a multiset, the substituted request -- substitution reaches nested records, sets and every "
              "occurrence --, the substitution, and the ordinary authorizer's decision and reason set; exactly k callbacks and the "
-             "callback's / context's error under a fault at k; nothing for an empty list; an error for unbound or unused "
-             "variables). MC_Batch model-checks the enumeration algorithm (sorting by list length, one recursion level per "
+             "callback's / context's error under a fault at k; nothing for an empty list; the context's error, and no callback, "
+             "when the context is already cancelled at the call; an error for unbound or unused variables). MC_Batch model-checks the enumeration algorithm (sorting by list length, one recursion level per "
              "variable, save/restore, context check, error propagation) against it for every fault plan. Concrete batch "
              "requests with the expected multiset are replayed into batch.Authorize with copying / failing / cancelling "
              "callbacks, each Result.Request also authorized by cedar.Authorize; random templates are validated by TLC "
@@ -141,7 +141,8 @@ CLAIMED = {
              "known input only with its first observation). MC_Authz shows on the model that the authorizer's result is a "
              "function of the policy multiset for every iteration order. The driver repeats each operation 30 (thorough 60) "
              "times on freshly built / freshly decoded objects with rotated insertion orders -- authorization with error "
-             "messages over 12-policy sets and record literals with several failing fields, batch results, MarshalCedar / "
+             "messages over 12-policy sets and record literals with several failing fields, batch results with their error entries "
+             "(two variables of equal list length, unbound / unused variable errors), getTag on an unspecified principal, MarshalCedar / "
              "MarshalJSON of policies decoded from JSON and text, policy sets, entity maps, values with colliding members, "
              "decode -> re-encode -- and TLC validates every repetition as one Observe step (Trace_Determ).",
         design_ref="DESIGN.md 4 C14",
@@ -306,7 +307,8 @@ CLAIMED = {
              "MarshalCedar / MarshalJSON / Encoder and cedar.Authorize, each stage under recover() and a deadline. The token-mutation "
              "universe of C07 (TLC-generated) goes through Policy / PolicyList / PolicySet-from-bytes / Decoder the same way; nesting "
              "families (parentheses, !, -, if, sets, records, attribute chains, && chains, JSON arrays / records / Set / ! nodes, "
-             "schema Set<> and record types) run at depths 10^3, 10^4 (thorough 10^5) in child processes (a Go stack overflow is "
+             "schema Set<> and record types, JSON expression objects that mix a known and an unknown key) run at depths 10^3, 10^4 "
+             "(thorough 10^5, and 10^6 as a recorded known finding) in child processes (a Go stack overflow is "
              "fatal); every truncation and random byte edits of valid documents of every kind (incl. entity-UID text, schema text, "
              "request JSON) are recorded and validated by TLC (Trace_Total).",
         design_ref="DESIGN.md 4 C10",
